@@ -45,7 +45,59 @@ RULE = ("uniform integer milliseconds in 1900-01-01..2200-01-01; complete +-2000
         "boundaries of chosen years and around the epoch sign change; every microsecond phase 0..999 of sampled datetimes; "
         "naive / UTC-aware / offset datetimes; four string shapes; decimal years on a 1 ms lattice across leap and non-leap "
         "year ends. A case is non-trivial when ms is not a whole second (the binary64 quotient ms/1000 is inexact) or the "
-        "datetime has a sub-millisecond phase; distinct by (kind, value).")
+        "datetime has a sub-millisecond phase; distinct by (kind, value). Round 2: objects with state "
+        "(CatalogForecast.start_epoch/end_epoch, GriddedForecast.scale_to_test_date, catalog start_time/end_time/"
+        "get_datetimes after update_catalog_stats) in sequences assign - read - re-assign - read again; and a sample of "
+        "every case class re-run under non-UTC LOCAL time zones (TZ + time.tzset(): Asia/Tokyo, America/Los_Angeles; "
+        "three more in thorough), the zone being part of the case.")
+
+# sub-classes on which the UNCHANGED library deviates and a decision is pending (generator leaves the assertion out,
+# the observation is counted): see notes/C15.md "Observed on unchanged /repo"
+AWAITING_DECISION = [
+    # CatalogForecast.time_horizon_years is computed once in the constructor from start_epoch/end_epoch and is a plain
+    # attribute: after start_time / end_time are re-assigned it still describes the old window
+    "catalog-forecast:time_horizon_years-after-reassignment",
+]
+
+# the LOCAL time zone the current cases run under (None = the process default); part of every case for the replay
+_TZ = None
+LOCAL_ZONES = ["Asia/Tokyo", "America/Los_Angeles"]
+LOCAL_ZONES_THOROUGH = ["Europe/London", "Pacific/Chatham", "America/Sao_Paulo"]
+
+
+class local_tz:
+    """run a block under another LOCAL time zone (TZ + time.tzset()); always restored"""
+    def __init__(self, zone):
+        self.zone = zone
+
+    def __enter__(self):
+        global _TZ
+        import time
+        self.old_env, self.old_tz = os.environ.get("TZ"), _TZ
+        if self.zone is not None:
+            os.environ["TZ"] = self.zone
+            time.tzset()
+            _TZ = self.zone
+        return self
+
+    def __exit__(self, *exc):
+        global _TZ
+        import time
+        if self.zone is not None:
+            if self.old_env is None:
+                os.environ.pop("TZ", None)
+            else:
+                os.environ["TZ"] = self.old_env
+            time.tzset()
+            _TZ = self.old_tz
+        return False
+
+
+def _case(**kw):
+    if _TZ is not None:
+        kw["tz"] = _TZ
+    return kw
+
 
 UTC = _dt.timezone.utc
 EPOCH = _dt.datetime(1970, 1, 1, tzinfo=UTC)
@@ -139,14 +191,14 @@ def check_ms_values(ctx, ms_list, tag, via="func", sorted_window=False):
             try:
                 tu.epoch_time_to_utc_datetime(m)
             except Exception as e2:
-                run.oracle_failure(dict(kind="ms", ms=m, tag=tag), f"ms->dt raised {type(e2).__name__}: {e2}")
+                run.oracle_failure(_case(kind="ms", ms=m, tag=tag), f"ms->dt raised {type(e2).__name__}: {e2}")
                 return
-        run.oracle_failure(dict(kind="ms", ms=ms_list[0], tag=tag, via=via), f"ms->dt raised {type(e).__name__}: {e}")
+        run.oracle_failure(_case(kind="ms", ms=ms_list[0], tag=tag, via=via), f"ms->dt raised {type(e).__name__}: {e}")
         return
     uss = []
     prev = None
     for m, dt in zip(ms_list, dts):
-        case = dict(kind="ms", ms=m, tag=tag)
+        case = _case(kind="ms", ms=m, tag=tag)
         run.case(case, ("ms", m) if m % 1000 else None)
         if dt.tzinfo is None or dt.utcoffset() != _dt.timedelta(0):
             run.oracle_failure(case, "ms->dt: result is not UTC-aware")
@@ -164,12 +216,12 @@ def check_ms_values(ctx, ms_list, tag, via="func", sorted_window=False):
         if abs(u - 1000 * m) >= 1000:
             run.oracle_failure(case, f"exactness ms->dt: datetime {dt.isoformat()} is {u - 1000 * m} us away from {m} ms")
         if sorted_window and prev is not None and not (prev[1] < dt):
-            run.oracle_failure(dict(kind="ms-pair", ms=[prev[0], m], tag=tag),
+            run.oracle_failure(_case(kind="ms-pair", ms=[prev[0], m], tag=tag),
                                f"monotone ms->dt: {prev[0]} < {m} but {prev[1].isoformat()} >= {dt.isoformat()}")
         prev = (m, dt)
     run.count(f"ms:{tag}:{via}", len(ms_list))
     for part_ms, part_us in zip(_chunks(ms_list), _chunks(uss)):
-        ctx.ask("c15_ms2dt " + ",".join(map(str, part_ms)), part_us, dict(kind="ms", op="c15_ms2dt", tag=tag,
+        ctx.ask("c15_ms2dt " + ",".join(map(str, part_ms)), part_us, _case(kind="ms", op="c15_ms2dt", tag=tag,
                                                                             key="ms", inputs=part_ms))
 
 
@@ -187,7 +239,7 @@ def check_dt_values(ctx, us_list, tag, mode="utc", sorted_window=False):
     exp = []
     prev = None
     for u in us_list:
-        case = dict(kind="dt", us=u, mode=mode, tag=tag)
+        case = _case(kind="dt", us=u, mode=mode, tag=tag)
         run.case(case, ("dt", u) if u % 1000 else None)
         dt = dt_of(u, aware=False)
         if tz is not None:
@@ -212,20 +264,20 @@ def check_dt_values(ctx, us_list, tag, mode="utc", sorted_window=False):
         if abs(1000 * int(ms) - u) >= 1000:
             run.oracle_failure(case, f"within one ms: dt->ms {dt.isoformat()} -> {ms} is {1000 * int(ms) - u} us away")
         if sorted_window and prev is not None and prev[1] > ms:
-            run.oracle_failure(dict(kind="dt-pair", us=[prev[0], u], mode=mode, tag=tag),
+            run.oracle_failure(_case(kind="dt-pair", us=[prev[0], u], mode=mode, tag=tag),
                                f"monotone dt->ms: {prev[0]} us <= {u} us but {prev[1]} > {ms}")
         prev = (u, ms)
     run.count(f"dt:{tag}:{mode}", len(us_list))
     for part_us, part_ms in zip(_chunks(us_list), _chunks(exp)):
         ctx.ask(f"c15_dt2ms {'naive' if mode == 'naive' else 'utc'} " + ",".join(map(str, part_us)), part_ms,
-                dict(kind="dt", op="c15_dt2ms", tag=tag, mode=mode, inputs=part_us))
+                _case(kind="dt", op="c15_dt2ms", tag=tag, mode=mode, inputs=part_us))
 
 
 def check_tz_reject(ctx, us, hours):
     """a datetime whose tzinfo is a non-zero UTC offset must be rejected with ValueError"""
     from csep.utils import time_utils as tu
     run = ctx.run
-    case = dict(kind="tz", us=us, offset_hours=hours)
+    case = _case(kind="tz", us=us, offset_hours=hours)
     run.case(case, ("tz", us, hours))
     dt = dt_of(us, aware=False).replace(tzinfo=_dt.timezone(_dt.timedelta(hours=hours)))
     try:
@@ -253,7 +305,7 @@ def check_strings(ctx, us, tag):
     aware = dt_of(us, True)
     naive = dt_of(us, False)
     ms = us // 1000
-    case = dict(kind="str", us=us, tag=tag)
+    case = _case(kind="str", us=us, tag=tag)
     run.case(case, ("str", us) if us % 1000000 else None)
     shapes = [("naive", str(naive)), ("aware", str(aware))]
     # the fraction-less / fractional shape that str() would not give for this value is produced by strftime
@@ -303,7 +355,7 @@ def check_decimal_years(ctx, us_list, tag, lattice=False):
     dys, invs, keep = [], [], []
     prev = None
     for u in us_list:
-        case = dict(kind="decyear", us=u, tag=tag)
+        case = _case(kind="decyear", us=u, tag=tag)
         run.case(case, ("dy", u))
         dt = dt_of(u, True)
         try:
@@ -328,23 +380,23 @@ def check_decimal_years(ctx, us_list, tag, lattice=False):
         if prev is not None:
             pu, py = prev
             if u - pu >= 1000 and not (py < y):
-                run.oracle_failure(dict(kind="decyear-pair", us=[pu, u], tag=tag),
+                run.oracle_failure(_case(kind="decyear-pair", us=[pu, u], tag=tag),
                                    f"decimal year not strictly increasing: {pu} us -> {py!r}, {u} us -> {y!r}")
             elif u > pu and py > y:
-                run.oracle_failure(dict(kind="decyear-pair", us=[pu, u], tag=tag),
+                run.oracle_failure(_case(kind="decyear-pair", us=[pu, u], tag=tag),
                                    f"decimal year decreasing: {pu} us -> {py!r}, {u} us -> {y!r}")
         prev = (u, y)
     run.count(f"decyear:{tag}", len(us_list))
     for pu, pd, pi in zip(_chunks(keep, 1500), _chunks(dys, 1500), _chunks(invs, 1500)):
-        ctx.ask("c15_decyear " + ",".join(map(str, pu)), pd, dict(kind="decyear", op="c15_decyear", tag=tag, inputs=pu))
-        ctx.ask("c15_decyear_inv " + ",".join(pd), pi, dict(kind="decyear", op="c15_decyear_inv", tag=tag, inputs=pd))
+        ctx.ask("c15_decyear " + ",".join(map(str, pu)), pd, _case(kind="decyear", op="c15_decyear", tag=tag, inputs=pu))
+        ctx.ask("c15_decyear_inv " + ",".join(pd), pi, _case(kind="decyear", op="c15_decyear_inv", tag=tag, inputs=pd))
 
 
 def check_forecast_epoch(ctx, us_a, us_b):
     """CatalogForecast.start_epoch / end_epoch are datetime_to_utc_epoch of the stored datetimes"""
     from csep.core.forecasts import CatalogForecast
     run = ctx.run
-    case = dict(kind="forecast", us=[us_a, us_b])
+    case = _case(kind="forecast", us=[us_a, us_b])
     run.case(case, ("fc", us_a, us_b))
     try:
         from csep.core.catalogs import CSEPCatalog
@@ -360,6 +412,233 @@ def check_forecast_epoch(ctx, us_a, us_b):
     ctx.ask(f"c15_dt2ms utc {us_a},{us_b}", got, dict(case, op="c15_dt2ms"))
 
 
+
+# ------------------------------------------------------------------------------------------------ objects with state
+def _mk_dt(us, mode):
+    """datetime of `us` microseconds since the epoch: naive | utc | zoneinfo | offset:<hours> (same instant)"""
+    if mode == "naive":
+        return dt_of(us, False)
+    if mode == "utc":
+        return dt_of(us, True)
+    if mode == "zoneinfo":
+        import zoneinfo
+        return dt_of(us, False).replace(tzinfo=zoneinfo.ZoneInfo("UTC"))
+    if mode.startswith("offset:"):
+        tz = _dt.timezone(_dt.timedelta(hours=int(mode.split(":")[1])))
+        return dt_of(us, True).astimezone(tz)
+    raise ValueError(mode)
+
+
+def check_object_times(ctx, obj, steps, tag, ctor=True):
+    """time-derived values of an OBJECT follow its datetime attributes: assign, read, re-assign, read again.
+
+    obj = 'catalog-forecast': steps = [[us_start, mode, us_end, mode], ...]; start_time / end_time are assigned step by
+          step (the first step through the constructor when ctor), start_epoch / end_epoch are read after every
+          assignment (twice, and once between the two assignments of a step): each read must equal the floor
+          millisecond of the CURRENT attribute (= datetime_to_utc_epoch of it), and epoch -> datetime must give the
+          attribute back when it is a whole millisecond. An 'offset:<h>' datetime must make the read raise ValueError.
+    obj = 'gridded-forecast': same steps (+ a test instant as 5th entry); scale_to_test_date must scale by the
+          decimal-year fraction of the CURRENT start_time / end_time.
+    obj = 'catalog': steps = [[ms, ms, ...], ...] origin times assigned to catalog.catalog one after the other;
+          start_time / end_time (update_catalog_stats), get_epoch_times and get_datetimes must describe the current
+          events."""
+    from csep.utils import time_utils as tu
+    from csep.core.catalogs import CSEPCatalog
+    run = ctx.run
+    case = _case(kind="objtimes", obj=obj, steps=steps, ctor=ctor, tag=tag)
+    run.case(case, ("objtimes", obj, json.dumps(steps), ctor, _TZ))
+    run.count(f"objtimes:{obj}" + (f":tz" if _TZ else ""))
+    fails = []
+
+    def fail(msg):
+        fails.append(msg)
+
+    def read_epoch(o, name, us, mode, where):
+        """one read of o.<name>_epoch against the exact value of the current attribute"""
+        attr = getattr(o, name + "_time")
+        try:
+            got = getattr(o, name + "_epoch")
+        except ValueError:
+            if not mode.startswith("offset:"):
+                fail(f"{where}: {name}_epoch raised ValueError for a {mode} datetime")
+            return None
+        except Exception as e:
+            fail(f"{where}: {name}_epoch raised {type(e).__name__}: {e}")
+            return None
+        if mode.startswith("offset:"):
+            fail(f"{where}: {name}_time has the non-UTC tzinfo {attr.tzinfo} but {name}_epoch returned {got!r} "
+                 f"instead of raising ValueError")
+            return None
+        want = us // 1000
+        if got != want or got != tu.datetime_to_utc_epoch(attr):
+            fail(f"{where}: {name}_time = {attr.isoformat()} but {name}_epoch = {got!r}; datetime_to_utc_epoch of the "
+                 f"attribute is {tu.datetime_to_utc_epoch(attr)} (exact floor millisecond {want})")
+            return got
+        back = tu.epoch_time_to_utc_datetime(got)
+        if us % 1000 == 0 and us_of(back) != us:
+            fail(f"{where}: {name}_epoch {got} -> {back.isoformat()} is not {name}_time {attr.isoformat()}")
+        return got
+
+    try:
+        if obj == "catalog-forecast":
+            from csep.core.forecasts import CatalogForecast
+            cats = [CSEPCatalog(data=[("a", 0, 0.0, 0.0, 0.0, 1.0)], catalog_id=0)]
+            asked = []
+            fc = None
+            for k, (ua, ma, ub, mb) in enumerate(steps):
+                a, b = _mk_dt(ua, ma), _mk_dt(ub, mb)
+                offs = ma.startswith("offset:") or mb.startswith("offset:")
+                if fc is None:
+                    if ctor and not offs:
+                        fc = CatalogForecast(catalogs=cats, start_time=a, end_time=b, name="f")
+                        thy = fc.time_horizon_years
+                        want = Fraction(ub // 1000 - ua // 1000, 31557600 * 1000)
+                        if abs(Fraction(float(thy)) - want) > Fraction(1, 10 ** 12) * max(1, abs(want)):
+                            fail(f"step 0: time_horizon_years = {thy!r} of a fresh forecast, the window is {float(want)!r} "
+                                 f"astronomical years")
+                    else:
+                        fc = CatalogForecast(catalogs=cats, name="f")
+                        if fc.start_epoch is not None or fc.end_epoch is not None:
+                            fail("a forecast without times reports epochs")
+                        fc.start_time = a
+                        read_epoch(fc, "start", ua, ma, f"step {k} (end_time still None)")
+                        fc.end_time = b
+                else:
+                    fc.start_time = a
+                    # between the two assignments: the start already follows, the end still is the previous one
+                    read_epoch(fc, "start", ua, ma, f"step {k} (after start_time was re-assigned)")
+                    pua, pma, pub, pmb = steps[k - 1]
+                    read_epoch(fc, "end", pub, pmb, f"step {k} (end_time not yet re-assigned)")
+                    fc.end_time = b
+                for rep in (0, 1):
+                    ga = read_epoch(fc, "start", ua, ma, f"step {k} read {rep}")
+                    gb = read_epoch(fc, "end", ub, mb, f"step {k} read {rep}")
+                if not ma.startswith("offset:") and not mb.startswith("offset:") and ga is not None and gb is not None:
+                    asked.append((ua, ub, ga, gb))
+                if k > 0 and not offs and "catalog-forecast:time_horizon_years-after-reassignment" not in AWAITING_DECISION:
+                    want = Fraction(ub // 1000 - ua // 1000, 31557600 * 1000)
+                    thy = getattr(fc, "time_horizon_years", None)
+                    if thy is None or abs(Fraction(float(thy)) - want) > Fraction(1, 10 ** 12) * max(1, abs(want)):
+                        fail(f"step {k}: time_horizon_years = {thy!r} after the window was re-assigned to "
+                             f"{float(want)!r} astronomical years")
+                elif k > 0 and not offs and hasattr(fc, "time_horizon_years"):
+                    want = Fraction(ub // 1000 - ua // 1000, 31557600 * 1000)
+                    if abs(Fraction(float(fc.time_horizon_years)) - want) > Fraction(1, 10 ** 12) * max(1, abs(want)):
+                        run.count("awaiting-decision:time_horizon_years-stale")
+            if asked:
+                ctx.ask("c15_dt2ms utc " + ",".join(f"{ua},{ub}" for ua, ub, _, _ in asked),
+                        [str(x) for _, _, ga, gb in asked for x in (ga, gb)], dict(case, op="c15_dt2ms"))
+        elif obj == "gridded-forecast":
+            import numpy
+            from csep.core.forecasts import GriddedForecast
+            from csep.core.regions import CartesianGrid2D
+            region = CartesianGrid2D.from_origins(numpy.array([[0.0, 0.0], [0.1, 0.0]]), dh=0.1,
+                                                  magnitudes=numpy.array([4.0, 5.0]))
+            base = numpy.array([[1.0, 2.0], [3.0, 4.0]])
+            gf = None
+            for k, (ua, ma, ub, mb, ut) in enumerate(steps):
+                a, b = _mk_dt(ua, ma), _mk_dt(ub, mb)
+                t = _mk_dt(ut, ma)
+                if gf is None and ctor:
+                    gf = GriddedForecast(start_time=a, end_time=b, data=base.copy(), region=region,
+                                         magnitudes=region.magnitudes, name="g")
+                else:
+                    if gf is None:
+                        gf = GriddedForecast(data=base.copy(), region=region, magnitudes=region.magnitudes, name="g")
+                    gf.start_time, gf.end_time = a, b
+                if gf.start_time is not a or gf.end_time is not b:
+                    fail(f"step {k}: the time attributes are not the assigned datetimes")
+                gf.scale(1)
+                res = gf.scale_to_test_date(t)
+                # the documented scaling, from the CURRENT attributes (same float expression)
+                if t >= b or t <= a:
+                    want = 1.0
+                else:
+                    dur = tu.decimal_year(b) - tu.decimal_year(a)
+                    want = (tu.decimal_year(t + _dt.timedelta(1)) - tu.decimal_year(a)) / dur
+                got = float(numpy.sum(res.data)) / float(numpy.sum(base))
+                if not (abs(got - want) <= 1e-12 * max(1.0, abs(want))):
+                    fail(f"step {k}: scale_to_test_date({t.isoformat()}) scales by {got!r}; the decimal-year fraction of "
+                         f"the current window {a.isoformat()} .. {b.isoformat()} is {want!r}")
+        elif obj == "catalog":
+            cat = None
+            for k, mss in enumerate(steps):
+                rows = [(str(i), m, 0.0, 0.0, 0.0, 1.0) for i, m in enumerate(mss)]
+                if cat is None and ctor:
+                    cat = CSEPCatalog(data=rows)
+                else:
+                    if cat is None:
+                        cat = CSEPCatalog(data=[("z", 86400000, 0.0, 0.0, 0.0, 1.0)])
+                        _ = cat.get_datetimes(), cat.start_time
+                    cat.catalog = rows          # the setter re-computes the statistics
+                for rep in (0, 1):
+                    if rep == 1:
+                        cat.update_catalog_stats()
+                    ep = [int(x) for x in cat.get_epoch_times()]
+                    if ep != list(mss):
+                        fail(f"step {k}: get_epoch_times {ep} are not the assigned origin times {list(mss)}")
+                    dts = cat.get_datetimes()
+                    if [us_of(d) for d in dts] != [1000 * m for m in mss]:
+                        fail(f"step {k}: get_datetimes {[d.isoformat() for d in dts]} do not describe the current events")
+                    for name, want in (("start_time", min(mss) if mss else None), ("end_time", max(mss) if mss else None)):
+                        got = getattr(cat, name)
+                        if want is None:
+                            if got is not None:
+                                fail(f"step {k}: {name} of an empty catalog is {got!r}")
+                        elif got is None or got.tzinfo is None or us_of(got) != 1000 * want \
+                                or tu.datetime_to_utc_epoch(got) != want:
+                            fail(f"step {k}: {name} = {got!r} but the current events "
+                                 f"{'start' if name == 'start_time' else 'end'} at {want} ms")
+                if mss:
+                    ctx.ask(f"c15_ms2dt {min(mss)},{max(mss)}", [str(us_of(cat.start_time)), str(us_of(cat.end_time))],
+                            dict(case, op="c15_ms2dt"))
+        else:
+            raise ValueError(obj)
+    except Exception as e:
+        fail(f"{obj}: {type(e).__name__}: {e}")
+    for f in fails[:1]:
+        run.oracle_failure(case, f)
+
+
+def gen_object_times(rng, obj):
+    """(steps, ctor) for check_object_times: 2..4 re-assignments, boundary-directed instants"""
+    def inst():
+        r = rng.random()
+        if r < 0.25:
+            return rng.choice([0, -1000, 1000, -1, 999, -86400000000, year_start_ms(2000) * 1000,
+                               year_start_ms(2038) * 1000 - 1000, -1097606850620 * 1000]) + rng.choice([0, 0, 1, 999, 1000])
+        if r < 0.6:
+            return rng.randrange(MS_LO, MS_HI) * 1000
+        return rng.randrange(MS_LO * 1000, MS_HI * 1000)
+
+    def mode(allow_offset):
+        r = rng.random()
+        if allow_offset and r < 0.08:
+            return "offset:" + str(rng.choice([-8, -5, 1, 9]))
+        return rng.choice(["naive", "utc", "zoneinfo"])
+    n = rng.randint(2, 4)
+    ctor = rng.random() < 0.7
+    steps = []
+    if obj == "catalog":
+        for _ in range(n):
+            k = rng.choice([0, 1, 1, 2, 3, 5])
+            steps.append([rng.randrange(MS_LO, MS_HI) if rng.random() < 0.8 else rng.choice([0, -1, 1, 999, -1000])
+                          for _ in range(k)])
+        return steps, ctor
+    for _ in range(n):
+        a = inst()
+        b = a + rng.choice([1000, 86400 * 10 ** 6, rng.randrange(1, 10 ** 13)])
+        b = min(b, MS_HI * 1000)
+        if obj == "gridded-forecast":
+            m = rng.choice(["naive", "utc"])
+            ut = rng.choice([a - 10 ** 6, a, b, b + 10 ** 6, a + (b - a) // 2, a + (b - a) // 3, rng.randrange(a, b + 1)])
+            ut = max(MS_LO * 1000, min(ut, (MS_HI - 2 * 86400000) * 1000))
+            steps.append([a, m, b, m, ut])
+        else:
+            steps.append([a, mode(True), b, mode(True)])
+    return steps, ctor
+
+
 # ------------------------------------------------------------------------------------------------ driver
 def _corpus(ctx):
     d = os.path.join(VERIF, "corpus", "C15")
@@ -372,6 +651,9 @@ def _corpus(ctx):
                     c = c.get("case", c)
                     if "ms" in c and isinstance(c["ms"], int):
                         ms.append(c["ms"])
+                    elif c.get("kind") == "objtimes":
+                        with local_tz(c.get("tz")):
+                            check_object_times(ctx, c["obj"], c["steps"], "corpus", c.get("ctor", True))
                 except Exception:
                     pass
     ms = sorted(set(ms))
@@ -443,6 +725,11 @@ def run(run, rng, tier):
     for _ in range(10 if quick else 100):
         a = rng.randrange(MS_LO * 1000, MS_HI * 1000)
         check_forecast_epoch(ctx, a, a + rng.randrange(1, 10 ** 13))
+    # -- objects with state: the epoch / datetime values they report follow their current attributes
+    for _ in range(150 if quick else 3000):
+        for obj in ("catalog-forecast", "gridded-forecast", "catalog"):
+            steps, ctor = gen_object_times(rng, obj)
+            check_object_times(ctx, obj, steps, "objects", ctor)
     ctx.flush()
 
     # -- strings
@@ -480,14 +767,79 @@ def run(run, rng, tier):
     check_decimal_years(ctx, uni_us, "uniform")
     ctx.flush()
     run.extra["decimal_year_lattice_years"] = dyears
+
+    # -- a sample of ALL of the above under non-UTC LOCAL time zones: nothing may depend on the zone of the machine
+    zones = LOCAL_ZONES + ([] if quick else LOCAL_ZONES_THOROUGH)
+    for zone in zones:
+        with local_tz(zone):
+            _sample_all(ctx, rng, quick, centres)
+            ctx.flush()
+    run.extra["local_time_zones"] = zones
+    run.extra["awaiting_decision"] = list(AWAITING_DECISION)
     run.assumptions.append("os.name != 'nt' (the Windows branch of epoch_time_to_utc_datetime is not exercised)")
+
+
+def _sample_all(ctx, rng, quick, centres):
+    """a sample of every class of case (run under the LOCAL time zone currently set)"""
+    import time
+    k = 1 if quick else 5
+    zone = _TZ or "default"
+    # local-time discontinuities of the zone in 2021 (daylight-saving gap / fold), as UTC instants and as naive
+    # wall-clock values, besides the epoch and a year start
+    dst = [us_of(_dt.datetime(2021, 3, 14, 10, 0, tzinfo=UTC)) // 1000, us_of(_dt.datetime(2021, 11, 7, 9, 0, tzinfo=UTC)) // 1000,
+           us_of(_dt.datetime(2021, 3, 14, 2, 30, tzinfo=UTC)) // 1000, us_of(_dt.datetime(2021, 11, 7, 1, 30, tzinfo=UTC)) // 1000,
+           us_of(_dt.datetime(2021, 3, 28, 1, 30, tzinfo=UTC)) // 1000]
+    uni = [rng.randrange(MS_LO, MS_HI + 1) for _ in range(1500 * k)]
+    check_ms_values(ctx, uni[0::3], f"tz-uniform", via="func")
+    check_ms_values(ctx, uni[1::3], f"tz-uniform", via="catalog")
+    check_ms_values(ctx, uni[2::3], f"tz-uniform", via="int64")
+    for c in [0, year_start_ms(2038), rng.choice(centres)[1]] + rng.sample(dst, 2):
+        check_ms_values(ctx, list(range(c - 150, c + 151)), "tz-window", sorted_window=True)
+    bases = [0, -1000, -1097606850620 * 1000] + [1000 * m for m in dst] + \
+            [rng.randrange(MS_LO, MS_HI) * 1000 for _ in range(4 * k)]
+    for i, b in enumerate(bases):
+        check_dt_values(ctx, list(range(b - 200, b + 800)), "tz-phase", ["naive", "utc", "zoneinfo"][i % 3],
+                        sorted_window=True)
+    whole = [rng.randrange(MS_LO, MS_HI) * 1000 for _ in range(1500 * k)]
+    check_dt_values(ctx, whole[::2], "tz-whole-ms", "naive")
+    check_dt_values(ctx, whole[1::2], "tz-whole-ms", "utc")
+    for _ in range(10 * k):
+        check_tz_reject(ctx, rng.randrange(MS_LO * 1000, MS_HI * 1000), rng.choice([-12, -8, -5, -1, 1, 2, 5, 9, 14]))
+    for _ in range(4 * k):
+        a = rng.randrange(MS_LO * 1000, MS_HI * 1000)
+        check_forecast_epoch(ctx, a, a + rng.randrange(1, 10 ** 13))
+    for _ in range(15 * k):
+        for obj in ("catalog-forecast", "gridded-forecast", "catalog"):
+            steps, ctor = gen_object_times(rng, obj)
+            check_object_times(ctx, obj, steps, "tz-objects", ctor)
+    for i in range(120 * k):
+        u = [rng.randrange(MS_LO // 1000, MS_HI // 1000) * 1000000, rng.randrange(MS_LO, MS_HI) * 1000,
+             rng.randrange(MS_LO * 1000, MS_HI * 1000), rng.choice(dst) * 1000 + rng.choice([-1, 0, 1, 1000, 999999]),
+             rng.choice(centres)[1] * 1000 + rng.choice([-1000000, -1000, -1, 0, 1, 1000, 999999])][i % 5]
+        check_strings(ctx, u, "tz-strings")
+    y = rng.choice([1999, 2003, 2023, 2099])
+    c = year_start_ms(y + 1)
+    check_decimal_years(ctx, [1000 * m for m in range(c - 200, c + 201)], "tz-lattice-year-end", lattice=True)
+    check_decimal_years(ctx, list(range(c * 1000 - 100, c * 1000 + 100)), "tz-us-year-end")
+    for m in rng.sample(dst, 2):
+        check_decimal_years(ctx, [1000 * x for x in range(m - 100, m + 101)], "tz-lattice-dst", lattice=True)
+    check_decimal_years(ctx, sorted(set(rng.randrange(MS_LO, MS_HI) * 1000 + rng.choice([0, rng.randrange(1000)])
+                                        for _ in range(1200 * k))), "tz-uniform")
+    ctx.run.count(f"local-tz:{zone}:utcoffset-now={-time.timezone}")
 
 
 def replay(run, payload):
     case = payload.get("case") or {}
+    with local_tz(case.get("tz")):
+        _replay(run, case)
+
+
+def _replay(run, case):
     ctx = Ctx(run)
     kind = case.get("kind")
-    if kind == "ms":
+    if kind == "objtimes":
+        check_object_times(ctx, case["obj"], case["steps"], "replay", case.get("ctor", True))
+    elif kind == "ms":
         check_ms_values(ctx, [int(case["ms"])], "replay")
     elif kind == "ms-pair":
         check_ms_values(ctx, [int(x) for x in case["ms"]], "replay", sorted_window=True)
